@@ -256,6 +256,32 @@ def run_shard(desc):
         judge([np.array(u) for u in ind.ubis], "repeated-search[%s]" % mode, case2)
         sh.evaluations += 1
         sh.nontrivial += 1
+    # (b1) reset() between searches, as a script that tries several parameter sets on one indexer does: reset, a permissive search
+    # (which also reports a weak extra grain holding 30 % of its reflections), reset, a strict search - the second answer is that of
+    # the strict parameters only
+    Rw = O.rotation_from_axis_angle(*ROT_TABLE[(ng + shift) % len(ROT_TABLE)])
+    keep_w = (np.arange(nref) * 7 + 3) % 10 < 3
+    data_w = np.ascontiguousarray(np.concatenate([allgv, np.dot(np.dot(Rw, B), hkls.T).T[keep_w]]))
+    case2 = {"lattice": li, "cell": cell, "sym": sym, "ngrains": ng, "data": "repeat:reset_between_searches", "seed": seed_of()}
+    ind = indexing.indexer(unitcell=ucm.unitcell(cell, sym), gv=data_w.copy(), cosine_tol=0.002, minpks=int(0.2 * nref), hkl_tol=0.02, ds_tol=0.005,
+                           wavelength=0.3, uniqueness=0.5, max_grains=100)
+    ind.reset()
+    ind.assigntorings()
+    ind.score_all_pairs()
+    n_first = len(ind.ubis)
+    ind.reset()
+    ind.minpks = int(0.8 * nref)
+    ind.assigntorings()
+    ind.score_all_pairs()
+    indexing.loglevel = 4
+    weak_reported = [u for u in ind.ubis if npk_within(np.array(u), data_w, 0.02) <= int(0.8 * nref)]
+    if weak_reported:
+        sh.violation("repeated-search[reset between]:orientation-below-the-requested-minimum-reported", case2,
+                     {"reported": len(ind.ubis), "below_minimum": len(weak_reported), "reported_by_the_first_search": n_first})
+    else:
+        judge([np.array(u) for u in ind.ubis], "repeated-search[reset between]", case2)
+    sh.evaluations += 1
+    sh.nontrivial += 1
     # (b2) the notebook driver indexing.do_index: peaks selected by ring (foridx = all rings), orientations generated from all ring pairs,
     # looping over (fraction, hkl_tol) on one indexer; with and without an explicit unitcell object
     import io, contextlib
